@@ -156,7 +156,7 @@ struct ZeroCols {
 }
 impl ZeroCols {
     fn case(&self, idx: u64) -> (u64, usize, bool) {
-        let d = digits(idx, &[self.counts.len() as u64, 4, 2]);
+        let d = digits(idx, &[self.counts.len() as u64, 6, 2]);
         (self.counts[d[0] as usize], d[1] as usize, d[2] == 1)
     }
 }
@@ -168,7 +168,7 @@ impl Family for ZeroCols {
         "zero-column-row-counts".into()
     }
     fn len(&self) -> u64 {
-        self.counts.len() as u64 * 8
+        self.counts.len() as u64 * 12
     }
     fn run(&self, idx: u64, st: &mut Stats) -> Result<(), Violation> {
         let (n, how, bin) = self.case(idx);
@@ -200,6 +200,17 @@ impl Family for ZeroCols {
                     }
                     prog.push(WOp::EndRow)
                 }
+                4 => {
+                    // NULL cells (ignored like any other cell of a zero-column set)
+                    if k % 3 != 1 {
+                        prog.push(WOp::WriteCol(Val::Null));
+                    }
+                    if k % 3 == 2 {
+                        prog.push(WOp::WriteCol(Val::OptI32(None)));
+                    }
+                    prog.push(WOp::EndRow)
+                }
+                5 => prog.push(WOp::WriteRow(if k % 2 == 0 { vec![Val::I32(7)] } else { vec![Val::Null, Val::Str("x".into())] })),
                 _ => prog.push(WOp::EndRow),
             }
         }
@@ -226,7 +237,7 @@ impl Family for ZeroCols {
     }
     fn describe(&self, idx: u64) -> J {
         let (n, how, bin) = self.case(idx);
-        let variant = ["end_row", "write_row", "second of two zero-column resultsets", "write_col (ignored) + end_row"][how];
+        let variant = ["end_row", "write_row", "second of two zero-column resultsets", "write_col (ignored) + end_row", "write_col(NULL) (ignored) + end_row", "write_row with cells (ignored)"][how];
         json!({"rows_ended": n, "variant": variant, "binary": bin})
     }
 }
@@ -246,7 +257,7 @@ pub fn build(quick: bool) -> Check {
     Check {
         id: "C14",
         level: "model_checking",
-        rule: format!("(rows, last_insert_id) over a lattice of {} values per component (0, 1, 250..256, 2^16, 2^24, 2^32, 2^63, 2^64-1, every 2^k and 2^k +- 1) squared x 4 contexts (completed; complete_one first/middle; completed after complete_one) x text/binary; every value 0..1100 (thorough: 0..70000 and 2^24+-300) of one component against 0, 7, 251, 65536, 2^24, 2^64-1 of the other, both ways round; zero-column resultsets with every row count 0..300 and 65535, 65536, 70000 via end_row, write_row, ignored write_col, and as the second of two zero-column sets. Oracle: refwire's length-encoded-integer decoding of the OK packet, and mysql_common's OkPacket. Non-trivial = a component beyond the one-byte class.", nv),
+        rule: format!("(rows, last_insert_id) over a lattice of {} values per component (0, 1, 250..256, 2^16, 2^24, 2^32, 2^63, 2^64-1, every 2^k and 2^k +- 1) squared x 4 contexts (completed; complete_one first/middle; completed after complete_one) x text/binary; every value 0..1100 (thorough: 0..70000 and 2^24+-300) of one component against 0, 7, 251, 65536, 2^24, 2^64-1 of the other, both ways round; zero-column resultsets with every row count 0..300 and 65535, 65536, 70000 via end_row, write_row (empty and with cells), ignored write_col (values and NULLs), and as the second of two zero-column sets. Oracle: refwire's length-encoded-integer decoding of the OK packet, and mysql_common's OkPacket. Non-trivial = a component beyond the one-byte class.", nv),
         assumptions: vec!["64-bit components are covered at the boundary lattice, not exhaustively".into()],
         bounds: json!({"lattice": nv, "zero_column_max_exhaustive": 300}),
         exhaustive: true,
